@@ -481,6 +481,23 @@ func opConn(args []string) (out string) {
 					}
 				}
 			}
+		case strings.HasPrefix(ev, "nak"):
+			// the peer answers call i with a generic_nack carrying its sequence number (a legitimate answer)
+			if i := atoi(ev[3:]); i >= 0 && i < len(r.callers) {
+				c := r.callers[i]
+				r.tr.mu.Lock()
+				arrived := r.tr.arrived[c.seq]
+				r.tr.mu.Unlock()
+				if arrived && !c.answered {
+					c.answered = true
+					r.mu.Lock()
+					if c.returned || c.kind == "n" {
+						fedUnsol = append(fedUnsol, fmt.Sprintf("%da%d", c.seq, i))
+					}
+					r.mu.Unlock()
+					r.tr.feed(frameOf(&pdu.GenericNACK{Header: pdu.Header{Sequence: c.seq, CommandStatus: 3}}))
+				}
+			}
 		case strings.HasPrefix(ev, "dl"):
 			if i := atoi(ev[2:]); i >= 0 && i < len(r.callers) {
 				if r.callers[i].kind == "c" && r.callers[i].started && !r.callers[i].returned {
@@ -919,7 +936,11 @@ func genConnScenario(r *gen.Rng, p connProfile) string {
 			if c.kind == "c" && boxedHeld() {
 				continue // Close would cancel while another caller holds a boxed response
 			}
-			ev = append(ev, fmt.Sprintf("ans%d", i))
+			if r.Chance(25) {
+				ev = append(ev, fmt.Sprintf("nak%d", i))
+			} else {
+				ev = append(ev, fmt.Sprintf("ans%d", i))
+			}
 			c.answered = true
 			if c.stage == 2 && !watchGone && !offeringBlocked {
 				c.stage = 3
@@ -1148,7 +1169,7 @@ func init() {
 		}
 	}
 	gens["C15"] = func(r *gen.Rng, tier string, emit func(string)) {
-		for _, v := range []string{"answered-cancel", "answered-eof", "unanswered", "unanswered-unbind-ok", "writefail"} {
+		for _, v := range []string{"answered-cancel", "answered-eof", "unanswered", "unanswered-unbind-ok", "unanswered-undrained", "writefail"} {
 			emit("connka " + v)
 		}
 		for i := 0; i < scale(tier, 300, 1500); i++ {
@@ -1322,6 +1343,14 @@ func rawMutatedFrame(r *gen.Rng, seq int32) []byte {
 	if r.Chance(30) {
 		return udhFrame(r, seq)
 	}
+	if r.Chance(15) {
+		// framing and command_id intact, the body missing altogether (command_length 16 for a command with mandatory fields)
+		f := make([]byte, 16)
+		putBE32(f, 16)
+		putBE32(f[4:], uint32(r.Pick(0x04, 0x05, 0x21, 0x103, 0x80000004, 0x80000005, 0x02, 0x09, 0x15, 0x06)))
+		putBE32(f[12:], uint32(seq))
+		return f
+	}
 	for {
 		f, _ := validFrame(r, gen.Representable)
 		if len(f) > 260 {
@@ -1419,11 +1448,17 @@ func opConnKA(args []string) string {
 	}
 	watchRet := make(chan struct{})
 	go func() { defer close(watchRet); defer guard("watch"); conn.Watch() }()
-	go func() {
-		defer guard("consumer")
-		for range conn.PDU() {
-		}
-	}()
+	if variant != "unanswered-undrained" {
+		go func() {
+			defer guard("consumer")
+			for range conn.PDU() {
+			}
+		}()
+	} else {
+		// nobody receives from PDU(): an unsolicited PDU parks Watch on the queue before the keep-alive fails
+		tr.feed(frameOf(&pdu.DeliverSM{Header: pdu.Header{Sequence: 777}, ServiceType: "u"}))
+		time.Sleep(5 * time.Millisecond)
+	}
 	if variant == "writefail" {
 		tr.mu.Lock()
 		tr.broken = true
